@@ -87,6 +87,8 @@ class ClientWorld:
         ck = {"scope": "openid profile" if self.openid else "profile"}
         if self.pkce:
             ck["code_challenge_method"] = "S256"
+        if name == self.names[-1]:
+            ck["redirect_uri"] = "https://rp/registered-default"       # a provider registered with a default redirect_uri
         return dict(client_id="cid-" + name, client_secret="sec-" + name, access_token_url=f"https://{name}.example/token",
                     authorize_url=f"https://{name}.example/authorize", client_kwargs=ck, jwks={"keys": [JWK]}, issuer=f"https://{name}.example",
                     id_token_signing_alg_values_supported=["HS256"])
